@@ -84,10 +84,19 @@ func runLoopThread(t LoopThread, blocks []lz.Block) (rec []RecEv) {
 		}
 		rec = append(rec, RecEv{Op: opShrink, N: p.Shrink()})
 	}
-	// Reset and a short second stream: Reset must not touch other instances either
-	p.Reset([]byte(t.Input[:min(len(t.Input), 3)]))
+	// Reset(nil), a short second stream, Reset(data), a third one: Reset must not touch other instances either
+	p.Reset(nil)
+	nw, _ := p.Write([]byte(t.Input[:min(len(t.Input), 4)]))
+	rec = append(rec, RecEv{Op: opWrite, N: nw})
 	n, err := p.Parse(&blk, 0)
 	e := RecEv{Op: opParse, N: n, Seqs: append([]lz.Seq(nil), blk.Sequences...), Lits: append([]byte(nil), blk.Literals...)}
+	if err != nil {
+		e.Err = err.Error()
+	}
+	rec = append(rec, e)
+	p.Reset([]byte(t.Input[:min(len(t.Input), 3)]))
+	n, err = p.Parse(&blk, 0)
+	e = RecEv{Op: opParse, N: n, Seqs: append([]lz.Seq(nil), blk.Sequences...), Lits: append([]byte(nil), blk.Literals...)}
 	if err != nil {
 		e.Err = err.Error()
 	}
@@ -248,6 +257,59 @@ type WorkerResult struct {
 	Counts     map[string]int64   `json:"counts"`
 }
 
+// delegateToChild runs the named shard in a fresh process of this binary (or
+// of bin, if given) and merges its result. Scenarios that look for state shared
+// between instances must not share a process with the other shards of the
+// worker pool: whatever those leave behind in package-level state would make an
+// execution irreproducible. It returns false in the child itself.
+func delegateToChild(id, shard, tier string, st *engine.Stats, col *engine.Collector) bool {
+	if os.Getenv("LZMC_CHILD") != "" {
+		return false
+	}
+	exe, err := os.Executable()
+	if err != nil {
+		return false
+	}
+	runChild(exe, id, shard, tier, st, col)
+	return true
+}
+
+func runChild(bin, id, shard, tier string, st *engine.Stats, col *engine.Collector) {
+	// the exploration happens in the child: keep the stall monitor of this process quiet meanwhile
+	stop := make(chan struct{})
+	go func() {
+		t := time.NewTicker(10 * time.Second)
+		defer t.Stop()
+		for {
+			select {
+			case <-stop:
+				return
+			case <-t.C:
+				engine.Progress.Add(1)
+			}
+		}
+	}()
+	cmd := exec.Command(bin, "worker", id, shard, "--tier", tier)
+	cmd.Env = append(os.Environ(), "LZMC_CHILD=1")
+	out, err := cmd.Output()
+	close(stop)
+	if err != nil {
+		engine.Fatalf("worker process for %s failed: %v\n%s", shard, err, out)
+	}
+	var wr WorkerResult
+	if err := json.Unmarshal(out, &wr); err != nil {
+		engine.Fatalf("worker process for %s: bad output: %v", shard, err)
+	}
+	st.Merge(&wr.Stats)
+	for _, v := range wr.Violations {
+		n := wr.Counts[v.Sig]
+		col.Report(v)
+		for i := int64(1); i < n; i++ {
+			col.Report(engine.Violation{Property: v.Property, Sig: v.Sig, Rank: 1 << 62})
+		}
+	}
+}
+
 // loopShards returns one shard per scenario. In the plain build the shard
 // delegates to the yield-instrumented binary (environment LZMC_YIELD_BIN).
 func loopShards(tier string) []engine.Shard {
@@ -265,37 +327,7 @@ func loopShards(tier string) []engine.Shard {
 				st.CapsHit = append(st.CapsHit, "loop-level interleavings skipped: no yield-instrumented build available (LZMC_YIELD_BIN unset)")
 				return
 			}
-			// the exploration happens in the subprocess: keep the stall monitor of this process quiet meanwhile
-			stop := make(chan struct{})
-			go func() {
-				t := time.NewTicker(10 * time.Second)
-				defer t.Stop()
-				for {
-					select {
-					case <-stop:
-						return
-					case <-t.C:
-						engine.Progress.Add(1)
-					}
-				}
-			}()
-			out, err := exec.Command(bin, "worker", "C13", name, "--tier", tier).Output()
-			close(stop)
-			if err != nil {
-				engine.Fatalf("loop-level worker for %s failed: %v\n%s", name, err, out)
-			}
-			var wr WorkerResult
-			if err := json.Unmarshal(out, &wr); err != nil {
-				engine.Fatalf("loop-level worker for %s: bad output: %v", name, err)
-			}
-			st.Merge(&wr.Stats)
-			for _, v := range wr.Violations {
-				n := wr.Counts[v.Sig]
-				col.Report(v)
-				for i := int64(1); i < n; i++ {
-					col.Report(engine.Violation{Property: v.Property, Sig: v.Sig, Rank: 1 << 62})
-				}
-			}
+			runChild(bin, "C13", name, tier, st, col)
 		}})
 	}
 	return shards
